@@ -10,7 +10,7 @@ import tempfile
 
 VERIF = os.path.dirname(os.path.dirname(os.path.abspath(__file__)))
 CHECK_FOR = {"F1": ["C03"], "F2": ["C03"], "F3": ["C09", "C03"], "F5": ["C01"], "F6": ["C08"], "F7a": ["C13"], "F7b": ["C13"],
-             "F8": ["C14"], "F9": ["C17"], "F13": ["C13"], "F14": ["C13"]}
+             "F8": ["C14"], "F9": ["C17"], "F13": ["C13"], "F14": ["C13"], "F16": ["C02", "C14"]}
 
 
 def sh(cmd, cwd=None, env=None):
@@ -33,6 +33,8 @@ def main():
             sh(["git", "reset", "--hard", "-q"], cwd=wt)
             if f["id"] in ("F7a", "F13"):      # later fixes touched the same lines: take them out first (newest first)
                 sh(["git", "revert", "--no-commit", "29b7a25"], cwd=wt)
+            if f["id"] == "F8":
+                sh(["git", "revert", "--no-commit", "46d2521"], cwd=wt)
             if f["id"] == "F7a":
                 sh(["git", "revert", "--no-commit", "5ab3100"], cwd=wt)
             rc, out = sh(["git", "revert", "--no-commit", f["commit"]], cwd=wt)
